@@ -43,6 +43,19 @@ fn peer_messages(ty: Ty, p: usize, n: usize) -> Vec<(Vec<Vec<u8>>, Option<Vec<Ve
                 _ => (vec![tag(j), vec![], b"x".to_vec()], Some(vec![tag(j), vec![], b"x".to_vec()])),
             },
         };
+        // the peer's LAST message ends with an empty frame, so that the very last bytes a connection
+        // carries are the header of a zero-length frame (nothing follows to flush a parked message out)
+        let (wire, exp) = if j + 1 == n {
+            let mut w = wire;
+            w.push(vec![]);
+            let e = exp.map(|mut e| {
+                e.push(vec![]);
+                e
+            });
+            (w, e)
+        } else {
+            (wire, exp)
+        };
         let exp = exp.map(|e| {
             if ty == Ty::Router {
                 let mut w = vec![id.clone()];
